@@ -1478,10 +1478,12 @@ def desugar_iter_adaptors(j, by_id):
             if blk.get('cleanup') or t['k'] != 'call' or t.get('target') is None or t.get('dest') is None or t['dest']['p']:
                 continue
             nm = strip_crate(t['callee'].get('name', ''))
-            m = _re.match(r'^<(.+) as std::iter::Iterator>::(try_for_each|for_each|try_fold)::<', nm)
+            m = _re.match(r'^<(.+) as std::iter::Iterator>::(try_for_each|for_each|try_fold|any|all)::<', nm)
             if not m:
                 continue
             ity, kind = m.group(1), m.group(2)
+            if kind in ('any', 'all') and re.match(r'^(&mut )?(std|core|alloc)::', ity):
+                continue        # std iterators keep their `any` / `all` call (rules read those directly); only the crate's own iterators are written out
             args = t['args']
             if (kind == 'try_fold' and len(args) != 3) or (kind != 'try_fold' and len(args) != 2):
                 continue
@@ -1504,7 +1506,9 @@ def desugar_iter_adaptors(j, by_id):
             dest, target = t['dest'], t['target']
             dty = strip_crate(b['locals'][dest['l']]['ty'])
             da = _result_args(dty)
-            if kind != 'for_each' and da is None:
+            if kind in ('try_for_each', 'try_fold') and da is None:
+                continue
+            if kind in ('any', 'all') and dty != 'bool':
                 continue
             span, exp = t['span'], t.get('exp')
             locs = b['locals']
@@ -1565,7 +1569,16 @@ def desugar_iter_adaptors(j, by_id):
                 {'cleanup': False, 'stmts': body_stmts,
                  'term': {'k': 'call', 'callee': callee, 'args': cargs, 'dest': {'l': cr, 'p': []}, 'target': (L if kind == 'for_each' else L3), 'unwind': None, 'span': span, 'exp': exp, 'fn_span': span, 'fn_exp': exp}},
             ]
-            if kind == 'for_each':
+            if kind in ('any', 'all'):
+                # `it.any(p)`: loop { match it.next() { None => break false, Some(x) => if p(x) { break true } } }  (all: dual)
+                def cb_(v):
+                    return {'k': 'const', 'ty': 'bool', 'bits': '1' if v else '0', 'size': 1, 'text': 'true' if v else 'false'}
+                hit_val = (kind == 'any')
+                blocks.append({'cleanup': False, 'stmts': [], 'term': {'k': 'switch', 'discr': mv(cr), 'targets': [['0', (L if kind == 'any' else Fail)]], 'otherwise': (Fail if kind == 'any' else L), 'span': span, 'exp': exp, 'dsg': kind}})   # L3
+                blocks.append({'cleanup': False, 'stmts': [], 'term': goto(L)})          # Cont unused
+                blocks.append({'cleanup': False, 'stmts': [asg(copy.deepcopy(dest), {'k': 'use', 'op': cb_(hit_val)})], 'term': goto(target)})        # Fail = the deciding item
+                blocks.append({'cleanup': False, 'stmts': [asg(copy.deepcopy(dest), {'k': 'use', 'op': cb_(not hit_val)})], 'term': goto(target)})    # Done = exhausted
+            elif kind == 'for_each':
                 blocks.append({'cleanup': False, 'stmts': [], 'term': goto(L)})          # L3 unused
                 blocks.append({'cleanup': False, 'stmts': [], 'term': goto(L)})          # Cont unused
                 blocks.append({'cleanup': False, 'stmts': [], 'term': goto(L)})          # Fail unused
@@ -1588,7 +1601,10 @@ def desugar_iter_adaptors(j, by_id):
             blk['term'] = goto(L)
             b['blocks'].extend(blocks)
             count += 1
-            if kind != 'for_each':
+            if kind in ('any', 'all'):
+                _specialise_block(b, b['blocks'][Fail], ('bool', kind == 'any'), None, dest['l'])
+                _specialise_block(b, b['blocks'][Done], ('bool', kind != 'any'), None, dest['l'])
+            elif kind != 'for_each':
                 for idx in (Fail, Done):
                     nbk = b['blocks'][idx]
                     last = nbk['stmts'][-1]
